@@ -252,7 +252,6 @@ def exact_version(v):
 def sig_entries_wf(tp):
     """every present signature-map value is a well-formed entry (the checker inspects the whole envelope)"""
     conds = []
-    mode = z3.BoolVal(True)
     for r in tp['real']:
         sd = r['entry']
         (ps, _), (po, _) = get_slot(sd, 'signature'), get_slot(sd, 'other_headers')
@@ -263,10 +262,12 @@ def sig_entries_wf(tp):
     return zand(conds)
 
 
-def oracle_vr(it, tp):
+def oracle_vr(it, tp, Td=None, wfT_sigs=None):
+    """tp: the offered side (U template, its signature map); Td: trusted template (default tp['T'])"""
     eng = it.eng
-    Td, Ud = tp['T'], tp['U']
-    wfT = dmt.wf(eng, Td)
+    Td = Td or tp['T']
+    Ud = tp['U']
+    wfT = dmt.wf(eng, Td) if wfT_sigs is None else z3.And(dmt.wf(eng, Td), wfT_sigs)
     wfU = z3.And(dmt.wf(eng, Ud), sig_entries_wf(tp))
     msg = canon_of(it, Ud['signed'])
     both_root = z3.And(Td['type'].eq_conc('root'), Ud['type'].eq_conc('root'))
@@ -289,9 +290,9 @@ def oracle_vr(it, tp):
                 accept_lib=z3.And(pre, libT, libU), accept_strict=z3.And(pre, strictT, strictU), libT=libT, libU=libU)
 
 
-def mk_case_vr(eng, tp, m):
+def mk_case_vr(eng, tp, m, Tm=None):
     enc = m.eval(tp['enc'].e, model_completion=True).as_long()
-    return dict(scenario='verify_root', U=to_wire(conc(m, tp['Um'])), T=to_wire(conc(m, tp['Tm'])),
+    return dict(scenario='verify_root', U=to_wire(conc(m, tp['Um'])), T=to_wire(conc(m, Tm or tp['Tm'])),
                 env=dict(valid=vsign.valid_table(eng, m), iso=iso_table(eng, m), stdout_enc=vsign.ENC_NAMES[enc]))
 
 
